@@ -35,16 +35,16 @@ type c05event struct {
 }
 
 type c05inst struct {
-	rec     *fix.Rec
-	to      *onet.Token
-	gate    chan struct{}
-	entered int
-	exited  int
+	rec      *fix.Rec
+	to       *onet.Token
+	gate     chan struct{}
+	entered  int
+	exited   int
 	accepted int
-	closed  bool
-	running int
-	order   []int // accepted, in order
-	started []int
+	closed   bool
+	running  int
+	order    []int // accepted, in order
+	started  []int
 }
 
 type c05run struct {
@@ -147,8 +147,6 @@ func (r *c05run) waitFor(d time.Duration, pred func() bool) bool {
 	}
 	return true
 }
-
-
 
 func c05exec(c *h.Ctx, cs *h.Case) {
 	fixMu.Lock() // fix.Prepare is global
